@@ -288,6 +288,32 @@ def run(ctx) -> None:
                             judge_collected(ctx, f"{fe}:half-second-bounds", tb, ctxs, res, wb)
                             ctx.count("c06.half_second_bound_collections")
                             ctx.case(f"half-second-bounds|{fe}|{sorted(opts)}|n{n}|cut{cut}|{order}")
+            # (b3) rows that are not in time order (a window then covers scattered rows), frames whose index labels repeat, and
+            #      two records of equal length and equal first / last instant run one after the other with the same windows
+            for fe, opts in (("pandas", {}), ("pandas", {"index": "duplicated"}), ("pandas", {"index": "constant"}), ("numpy-dict", {}),
+                             ("xarray-ds", {}), ("netcdf-ds", {})):
+                for n in (5, 6, 9):
+                    base_secs = [P.T0 + 60 * k for k in range(n)]
+                    burst = [P.T0 + k for k in range(n - 1)] + [base_secs[-1]]
+                    shuffled = list(base_secs)
+                    rng.shuffle(shuffled)
+                    cutv = base_secs[n // 2]
+                    for label, secs_ in (("regular", base_secs), ("burst-same-ends", burst), ("shuffled", shuffled), ("regular-again", base_secs)):
+                        tb = P.Table(n, streams=("v1",), secs=secs_, with_pos=False)
+                        for order in ((0, 1), (1, 0)):
+                            basec = [{"window": (None, cutv), "streams": {"v1": [("qartod", "vf_probe_test", {"tag": 1})]}},
+                                     {"window": (cutv, None), "streams": {"v1": [("qartod", "vf_probe_test", {"tag": 2})]}}]
+                            ctxs = [basec[k] for k in order]
+                            res, err = P.run_frontend(fe, tb, P.build_config(ctxs), scratch, opts)
+                            wb = {"kind": "collect", "frontend": fe, "opts": opts, "table": tb.describe(), "contexts": core.jsonable(ctxs),
+                                  "arrival": f"config order {list(order)}", "note": f"{label} time axis; run right after the other axes of this group"}
+                            if err is not None:
+                                ctx.violation(f"C06:{fe}:axis-group:run-raised:{type(err).__name__}@{P.client_where(err)}", {**wb, "error": repr(err)[:300]})
+                                continue
+                            lbl = fe + ("" if not opts else ":" + ",".join(f"{k}={v}" for k, v in sorted(opts.items())))
+                            judge_collected(ctx, f"{lbl}:{label}", tb, ctxs, res, wb)
+                            ctx.count("c06.axis_group_collections")
+                            ctx.case(f"axis-group|{lbl}|{label}|n{n}|{order}")
             # (c) integer observations beyond 2**53 (counts, raw ADC words, epoch nanoseconds): the collected data still
             #     equal the source on covered rows, whatever part of the record each window covers
             for fe in ("pandas", "numpy-dict", "xarray-ds"):
